@@ -1,9 +1,9 @@
 PROP = {
     "modules": ["Discv5Model.Props.C20"],
-    "lemma_modules": [],
+    "lemma_modules": ["Discv5Model.Proofs.TalkLemmas"],
     "engines": [{"name": "talk", "quick": 150, "thorough": 3000}],
     "rule": "talk engine: one real Service (scripted handler); up to ~14 TALKREQs delivered from 5 peers / several "
-            "addresses, the application responding / dropping / holding the request objects in random order, shutdown at "
+            "addresses (payloads up to the single-datagram limit of 1177 bytes; some objects dropped while a panic unwinds), the application responding / dropping / holding the request objects in random order, shutdown at "
             "a random point (the handler side of the channel goes away), then every object still held is responded to or "
             "dropped. Every HandlerIn::Response is attributed to its request (id + node address) and counted. "
             "non-trivial = a request object responded to or dropped (before or after shutdown)",
@@ -13,7 +13,7 @@ PROP = {
     "assumptions": [],
     "engine": "talk",
     "design_ref": "DESIGN.md section 5 / C20",
-    "technique": "Lean 4 theorems over the TalkRequest life-cycle model + correspondence run through the real Service",
-    "level_text": "Proof: over the life-cycle grammar of a TalkRequest object (respond then drop, or drop) every life cycle emits exactly one TALKRESP with the request id to the node address it came from - the application payload if it responded, the empty payload otherwise - and never a second one; with the channel closed (after shutdown) respond returns the error value and drop emits nothing, no state raises (exactly_one, after_shutdown). Tied to /repo by delivering concurrent TALKREQs through the real Service (scripted handler) with the application responding / dropping / holding in random order incl. after shutdown, counting the responses per request id.",
+    "technique": "Lean 4 theorems over the TalkRequest life-cycle model and over all histories of a world of concurrently held request objects (Model/Talk.lean, invariant by induction over operations) + correspondence run through the real Service, the driver executing the same World.step",
+    "level_text": "Proof: over the life-cycle grammar of a TalkRequest object (respond then drop, or drop) every life cycle emits exactly one TALKRESP with the request id to the node address it came from - the application payload if it responded, the empty payload otherwise - and never a second one; with the channel closed (after shutdown) respond returns the error value and drop emits nothing, no state raises (exactly_one, after_shutdown). Over every history of deliveries, responds, drops (in any order, objects held concurrently, equal request ids allowed) and a shutdown at any point: never a second response for any object (never_two), nothing sent for an object still held (held_unanswered), consuming a held object while running yields exactly one TALKRESP with its id, node address and the application payload over the whole history (answered_exactly_once), nothing is sent after shutdown (after_shutdown_silent) and no use ever panics (never_panics). Tied to /repo by delivering concurrent TALKREQs through the real Service (scripted handler) with the application responding / dropping / holding in random order incl. after shutdown, counting the responses per request id.",
     "level_note": "Trusted: Lean kernel, extract.py, harness/driver. That respond(self) is followed by Drop is Rust ownership (reflected in the life-cycle grammar). The tie model<->code is a sampled differential check.",
 }
